@@ -4,6 +4,7 @@ import ast
 from fractions import Fraction as Fr
 from ..core import Result
 from ..pm import AnalysisError, unparse
+from ..match import Code
 from ..paths import paths, annotate, callee_names, call_attr
 from ..rat import (Ev, Rat, Sym, Poly, fn_eval, rat_eq, Inconclusive, ONE,
                    ZERO, const_of)
@@ -153,7 +154,7 @@ def dft_sampling(ctx):
                                  construct=f'{q} cut-off missing'))
     # the plotted axis: arange(N//2) * step, reference ratio freq/max_freq
     v = P.func('FFTMTF.view')
-    s = unparse(v.node, 6000)
+    s = Code(P, v)
     if 'dx = self._get_mtf_units()' in s and \
             'freq = np.arange(self.grid_size // 2) * dx' in s:
         res.ok('plotted frequencies = bin index * frequency step')
@@ -194,7 +195,7 @@ def working_fno(ctx):
                 f'MTF uses {b}; expected {want}',
                 construct=f'working FNO inf={inf}'))
     f = P.func('FFTMTF.__init__')
-    s = unparse(f.node, 4000)
+    s = Code(P, f)
     if 'self.FNO = self._get_fno()' in s and \
             s.index('self.FNO = self._get_fno()') < s.index('self.max_freq = 1'):
         res.ok('FFTMTF cut-off uses the working F-number')
@@ -204,7 +205,7 @@ def working_fno(ctx):
                              'F-number', construct='FFTMTF working FNO'))
     g = P.func('GeometricMTF.__init__')
     res.saw(g)
-    s = unparse(g.node, 4000)
+    s = Code(P, g)
     uses_working = '_get_fno' in s or 'magnification' in s
     if uses_working:
         res.ok('GeometricMTF cut-off uses a working F-number')
@@ -347,7 +348,7 @@ def shapes(ctx):
                  'and MTF slicing / normalisation have the stated shape')
     f = P.func('FFTPSF._generate_pupils')
     res.saw(f)
-    s = unparse(f.node, 5000)
+    s = Code(P, f)
     checks = [
         ('amplitude = self.data[0][k][1] / np.mean(self.data[0][k][1])' in s,
          'amplitude = intensity / mean intensity'),
@@ -368,7 +369,7 @@ def shapes(ctx):
                                  'pupil: ' + what + ' violated',
                                  construct='pupil ' + what[:30]))
     init = P.func('FFTPSF.__init__')
-    s = unparse(init.node, 3000)
+    s = Code(P, init)
     if "distribution='uniform'" in s and 'fields=[field]' in s and \
             'wavelengths=[wavelength]' in s and 'num_rays=num_rays' in s:
         res.ok('PSF wavefront sampled on the uniform grid for the requested '
@@ -380,7 +381,7 @@ def shapes(ctx):
                              construct='FFTPSF init'))
     g = P.func('FFTPSF._compute_psf')
     res.saw(g)
-    s = unparse(g.node, 3000)
+    s = Code(P, g)
     checks = [
         ('amp = np.fft.fftshift(np.fft.fft2(pupil))' in s and
          'psf.append(amp * np.conj(amp))' in s, 'PSF_k = |FFT(pupil_k)|^2'),
@@ -399,7 +400,7 @@ def shapes(ctx):
                                  construct='psf ' + what[:30]))
     n = P.func('FFTPSF._get_normalization')
     res.saw(n)
-    s = unparse(n.node, 3000)
+    s = Code(P, n)
     if 'P_nom = self.pupils[0].copy()' in s and 'P_nom[P_nom != 0] = 1' in s \
             and 'amp_norm = np.fft.fftshift(np.fft.fft2(P_nom))' in s and \
             'psf_norm = amp_norm * np.conj(amp_norm)' in s and \
@@ -411,7 +412,7 @@ def shapes(ctx):
                              'PSF normalisation is not the unaberrated peak',
                              construct='psf normalisation'))
     pd_ = P.func('FFTPSF._pad_pupils')
-    s = unparse(pd_.node, 3000)
+    s = Code(P, pd_)
     if 'pad = (self.grid_size - pupil.shape[0]) // 2' in s and \
             "np.pad(pupil, ((pad, pad), (pad, pad)), mode='constant', " \
             "constant_values=0)" in s:
@@ -430,7 +431,7 @@ def shapes(ctx):
                              construct='strehl'))
     m = P.func('FFTMTF._generate_mtf_data')
     res.saw(m)
-    s = unparse(m.node, 4000)
+    s = Code(P, m)
     checks = [
         ('np.abs(np.fft.fftshift(np.fft.fft2(psf)))' in s,
          'MTF = |FFT(PSF)|'),
@@ -449,7 +450,7 @@ def shapes(ctx):
                                  'mtf: ' + what + ' violated',
                                  construct='mtf ' + what[:30]))
     fi = P.func('FFTMTF.__init__')
-    s = unparse(fi.node, 4000)
+    s = Code(P, fi)
     if 'FFTPSF(self.optic, field, self.wavelength, self.num_rays, ' \
             'self.grid_size).psf for field in self.fields' in s:
         res.ok('one PSF per field with the same sampling')
@@ -467,7 +468,7 @@ def geometric(ctx):
                  'optional diffraction-limit scaling')
     f = P.func('GeometricMTF._compute_field_data')
     res.saw(f)
-    s = unparse(f.node, 4000)
+    s = Code(P, f)
     checks = [
         ('A, edges = np.histogram(xi, bins=self.num_points + 1)' in s,
          'line spread = histogram of the spot coordinate'),
@@ -502,7 +503,7 @@ def geometric(ctx):
                 ok = sym.eq(v, want)
             except Inconclusive:
                 ok = False
-    s = unparse(g.node, 4000)
+    s = Code(P, g)
     if ok and 'phi = np.arccos(self.freq / self.max_freq)' in s:
         res.ok('diffraction scaling (2/pi)(phi - cos phi sin phi), phi = '
                'arccos(f / cut-off)')
@@ -511,16 +512,17 @@ def geometric(ctx):
                              'diffraction-limit scaling is not (2/pi)(phi - '
                              'cos phi sin phi) with phi = arccos(f/f_c)',
                              construct='geometric scaling'))
-    if 'xi, yi = (field_data[0][0], field_data[0][1])' in s and \
-            'mtf.append([self._compute_field_data(yi, self.freq, scale_factor), '\
-            'self._compute_field_data(xi, self.freq, scale_factor)])' in s:
+    from ..match import find_seq
+    if find_seq(g, ['$x, $y = ($fd[0][0], $fd[0][1])',
+                    '$m.append([self._compute_field_data($y, self.freq, $sf), '
+                    'self._compute_field_data($x, self.freq, $sf)])']):
         res.ok('tangential from y, sagittal from x of the spot data')
     else:
         res.fail(ctx.finding('GEOMETRIC', g, g.node,
                              'tangential / sagittal not taken from y / x',
                              construct='geometric axes'))
     i = P.func('GeometricMTF.__init__')
-    s = unparse(i.node, 4000)
+    s = Code(P, i)
     if 'self.freq = np.linspace(0, self.max_freq, num_points)' in s:
         res.ok('frequencies 0 .. cut-off')
     else:
